@@ -82,7 +82,8 @@ class Report:
         new = [o for o in violated if o['key'] not in known_keys]
         listed = [o for o in violated if o['key'] in known_keys]
         floor_errors = []
-        if analysis_error is None:
+        if analysis_error is None and not new:
+            # floors guard against vacuous passes; a run that already found violations is not vacuous
             for rid, r in self.rules.items():
                 if r['n'] < r['floor']:
                     floor_errors.append(f'rule {rid}: {r["n"]} instance(s) found, at least {r["floor"]} confirmed by hand '
